@@ -148,3 +148,24 @@ def _v40(repo, mod):
     fn = repo.func(PP, "BackwardIterativeMinimizationVisitor.visit_default_test_case")
     s = find_stmt(fn, lambda s: isinstance(s, ast.If) and "protected" in norm(s.test))
     return replace_node(mod, s.test, "statement.bound_variable in protected")
+
+
+@variant("C22", "users-of-protected-variables-removable", PP, "C22.protected", "statements that use an asserted object are not kept (the repaired defect)")
+def _v41(repo, mod):
+    fn = repo.func(PP, "_is_protected")
+    r = find_stmt(fn, lambda s: isinstance(s, ast.Return))
+    return replace_node(mod, r.value.values[-1], "False")
+
+
+@variant("C22", "helper-forgets-assertion-carriers", PP, "C22.protected", "the predicate helper no longer looks at the statement's own assertions")
+def _v42(repo, mod):
+    fn = repo.func(PP, "_is_protected")
+    r = find_stmt(fn, lambda s: isinstance(s, ast.Return))
+    return replace_node(mod, r.value.values[1], "False")
+
+
+@variant("C22", "twin-guard-written-inline", PP, None, "the predicate written out in the visitor instead of the helper")
+def _v43(repo, mod):
+    fn = repo.func(PP, "ForwardIterativeMinimizationVisitor.visit_default_test_case")
+    s = find_stmt(fn, lambda s: isinstance(s, ast.If) and "protected" in norm(s.test))
+    return replace_node(mod, s.test, "statement.bound_variable in protected or statement.assertions or (statement.used_variables() & protected)")
